@@ -145,6 +145,9 @@ def rule_r2(repo):
     n = 0
     prov = _Provenance(repo)
     builders = {}
+    cgb = CallGraph(repo, 'Decoder')
+    entry = repo.func('tables', '_descriptors_from_ids')
+    builder_funcs = set(f for f in cgb.reachable([entry]) if f.module.name == 'tables' and f.cls is None)
     for fi in repo.all_funcs():
         for node in ast.walk(fi.node):
             targets = []
@@ -176,6 +179,10 @@ def rule_r2(repo):
                     continue
                 if _fresh_call(t.value):
                     continue
+                if fi in builder_funcs:
+                    # the list builder assigns members / factor to the replication descriptors it has just obtained; that these are
+                    # new objects and that nothing handed out by the cached tables is touched is decided by the fold below
+                    continue
                 if fi.cls is not None and fi.cls.name == 'TableD':
                     # the table's own construction (second pass fills the members of the sequences the first pass created),
                     # also when it has been split into private helpers that only the constructor reaches
@@ -186,6 +193,60 @@ def rule_r2(repo):
                         '%s performs a %s of %s.%s: descriptor objects are cached per table group and shared by every message, so the change is visible to '
                         'all later decodes' % (fi.qualname, kind, recv, t.attr))
     # TableR really creates new objects (no cache)
+    # fold of the list builder with tables that hand out one cached object per id (as the real tables do): after building the same
+    # list twice, the cached objects are what they were, and the replication descriptors of the two trees are different objects
+    from sa.rules import c14 as _c14
+    from sa.patheval import freeze as _freeze
+
+    class CachingTable(_c14.Table):
+        def __init__(self2, kind, defined):
+            _c14.Table.__init__(self2, kind, defined)
+            self2.cache = {}
+
+        def call_method(self2, name, args, kwargs, interp, frame, node):
+            if name == 'lookup' and self2.kind != 'R':
+                i = int(args[0])
+                if i not in self2.cache:
+                    self2.cache[i] = _c14.Table.call_method(self2, name, args, kwargs, interp, frame, node)
+                    if self2.kind == 'D' and isinstance(self2.cache[i], Obj):
+                        self2.cache[i].fields['members'] = [Obj('ElementDescriptor', {'id': 4001}), Obj('ElementDescriptor', {'id': 4002})]
+                else:
+                    interp.event('lookup', self2.kind, i)
+                return self2.cache[i]
+            return _c14.Table.call_method(self2, name, args, kwargs, interp, frame, node)
+    ids = [102002, 1001, 12101, 101000, 31001, 12101, 301011, 201130, 101002, 301011]
+    bfi = repo.func('tables', '_descriptors_from_ids')
+    tabs = [CachingTable('B', _c14.B_DEFINED), CachingTable('C', ()), _c14.Table('R', ()), CachingTable('D', _c14.D_DEFINED)]
+    itb = _c14.BuildInterp(repo, None)
+    trees, snaps = [], []
+    for k in (0, 1):
+        res = itb.run_function(bfi, lambda: dict(zip(bfi.params[:5], tabs + [list(ids)])))
+        if len(res) != 1 or not res[0].ok or not isinstance(res[0].value, list):
+            raise AnalysisError('tables._descriptors_from_ids could not be folded on %s: %s' % (ids, [r.describe() for r in res]))
+        trees.append(res[0].value)
+        snaps.append(dict(('%s%d' % (t.kind, i), _freeze(o)) for t in tabs if isinstance(t, CachingTable) for i, o in t.cache.items()))
+    rr.instance('list builder folded twice over caching tables: %d cached descriptors' % len(snaps[0]))
+    changed = sorted(k for k in snaps[0] if snaps[1].get(k) != snaps[0][k])
+    first = dict(('%s%d' % (t.kind, i), o) for t in tabs if isinstance(t, CachingTable) for i, o in t.cache.items())
+    for key, o in sorted(first.items()):
+        want = {'id': int(key[1:])}
+        extra = set(o.fields) - {'id', 'name', 'members'} if isinstance(o, Obj) else set()
+        if extra or (isinstance(o, Obj) and key[0] != 'D' and 'members' in o.fields):
+            changed.append(key)
+    if changed:
+        rr.fail('_descriptors_from_ids:cached-descriptor-changed', bfi.where, 'building the list %s writes to descriptor(s) %s that the tables hand out from their cache: every '
+                'later template built from the same table group sees the change' % (ids, sorted(set(changed))))
+
+    def reps(tree, acc):
+        for d in tree:
+            if isinstance(d, Obj) and d.cls in ('FixedReplicationDescriptor', 'DelayedReplicationDescriptor'):
+                acc.append(d)
+                reps(d.fields.get('members') or [], acc)
+        return acc
+    r0, r1 = reps(trees[0], []), reps(trees[1], [])
+    if len(r0) != len(r1) or len(r0) < 3 or any(a is b for a in r0 for b in r1):
+        rr.fail('_descriptors_from_ids:replication-shared', bfi.where, 'two templates built from the same list share a replication descriptor object (or differ in shape: %d / %d '
+                'replications): members assigned for one template would show in the other' % (len(r0), len(r1)))
     tr = repo.method('TableR', 'lookup')
 
     class TRI(Interp):
